@@ -35,7 +35,8 @@ Inductive ex :=
 | EIfGe (e : ex) (c : Z) (a b : ex)   (* a if e >= c else b *)
 | EIfNone (e : ex) (a b : ex)         (* a if e is None else b *)
 | EAdd (a b : ex)
-| EMul (a b : ex).
+| EMul (a b : ex)
+| ENone.                              (* the constant None *)
 
 (* tests of `if` statements *)
 Inductive cond :=
@@ -113,6 +114,7 @@ Fixpoint eval (env : list val) (e : ex) : option val :=
                      end
   | EAdd a b => match eval env a, eval env b with Some (VInt x), Some (VInt y) => Some (VInt (x + y)) | _, _ => None end
   | EMul a b => match eval env a, eval env b with Some (VInt x), Some (VInt y) => Some (VInt (x * y)) | _, _ => None end
+  | ENone => Some VNone
   end.
 
 Definition eval_cond (env : list val) (c : cond) : option bool :=
